@@ -148,6 +148,10 @@ def search(chk, broken):
         d = rng.choice(DIMS)
         u, v, w = rng.choice(ubd[d]), rng.choice(ubd[d]), rng.choice(ubd[d])
         x = rng.uniform(-50, 50) if d != 'Angular' else rng.uniform(-1, 1)
+        if d == 'Angular' and rng.random() < 0.5:
+            # real angles, on both sides of 90 and 270 degrees (wind directions, steep shots): given in degrees whatever unit displays them
+            x = (pbc.Unit.Degree(rng.choice([80.0, 100.0, 260.0, 280.0, rng.uniform(-360, 360)])) >> u) if u.name not in ('InchesPer100Yd', 'CmPer100m') \
+                else rng.uniform(-1, 1)
         q = u(x)
         before = {t: q.get_in(t) for t in ubd[d]}
         raw0 = q.raw_value
@@ -178,7 +182,10 @@ def search(chk, broken):
                                         {'op': 'hash-convert', 'dim': d, 'from': u.name, 'to': w.name, 'x': x,
                                          'python': f'from py_ballisticcalc import Unit; a=Unit.{u.name}({x!r}); h=hash(a); a << Unit.{w.name}; hash(a) == h'}))
         y = rng.uniform(-50, 50)
+        if d == 'Angular' and w.name not in ('InchesPer100Yd', 'CmPer100m'):
+            y = pbc.Unit.Degree(rng.choice([80.0, 100.0, 260.0, 280.0, rng.uniform(-360, 360)])) >> w
         s = w(y)
+        q << rng.choice(ubd[d])      # whatever unit the left operand displays in
         for name, f in CMPS.items():
             if f(q, s) != f(q.raw_value, s.raw_value) or f(q, y) != f(q.raw_value, y):
                 chk.failures.append(Failure('compare', f'{name} between {q!r} and {s!r} / {y} does not follow raw magnitude',
